@@ -119,6 +119,47 @@ def applyCmd (acc : List Rule) (r : Rule) : List Rule :=
 def chainOf (rules : List Rule) (t : Table) (c : Chain) : List Rule :=
   (rules.filter (fun r => r.table == t && r.chain == c)).foldl applyCmd []
 
+/-! ### What iptables-restore accepts
+
+`chainOf` is only the meaning of an input that iptables-restore accepts; it rejects the whole table
+(and `Run` fails) when an `-I` position is beyond the end of the chain, when a rule jumps to a chain
+that is neither built in nor declared with `-N`, or when an address literal is of the other family
+(all three confirmed by the live probe). `wellFormed` states these demands; `rulesOf_wellFormed`
+(Theorems.lean) proves them for every configuration. -/
+
+def Table.all : List Table := [.filter, .mangle, .nat, .raw]
+
+def Chain.all : List Chain :=
+  [.PREROUTING, .OUTPUT, .ISTIO_OUTPUT, .ISTIO_OUTPUT_DNS, .ISTIO_INBOUND, .ISTIO_DIVERT, .ISTIO_TPROXY,
+   .ISTIO_REDIRECT, .ISTIO_IN_REDIRECT, .ISTIO_DROP]
+
+/-- Are all `-I` positions of one chain's command list within range (1 <= pos <= length + 1)?
+    `len` = rules already in the chain. -/
+def insertsInRange : Nat → List Rule → Bool
+  | _, [] => true
+  | len, r :: rest =>
+    (match r.op with
+     | .append => true
+     | .insert pos => 1 ≤ pos && pos ≤ len + 1) && insertsInRange (len + 1) rest
+
+def Match.cidrs : Match → List Cidr
+  | .dst _ c => [c]
+  | .src c => [c]
+  | _ => []
+
+def wellFormed (f : Fam) (rules : List Rule) : Bool :=
+  -- every -I position exists when the command is executed
+  (Table.all.all fun t => Chain.all.all fun ch =>
+    insertsInRange 0 (rules.filter (fun r => r.table == t && r.chain == ch))) &&
+  -- a jump goes to a user chain, and buildRestore declares it (`-N`)
+  (rules.all fun r => match r.target with
+    | .jump ch => !ch.builtin && (declaredChains rules).contains (r.table, ch)
+    | _ => true) &&
+  -- every user chain that receives a rule is declared
+  (rules.all fun r => r.chain.builtin || (declaredChains rules).contains (r.table, r.chain)) &&
+  -- address literals are of the table's family
+  (rules.all fun r => r.conds.all fun m => m.cidrs.all fun x => x.v6 == (f == .v6))
+
 /-- Evaluate user chain `c` of table `t` with `d` levels of jump stack left. -/
 def evalChain (rules : List Rule) (t : Table) : Nat → Chain → Packet → Res
   | 0, _, _ => .fin .loop
